@@ -37,7 +37,9 @@ static const char* build_name(void) {
 }
 
 /* ------------------------------------------------------------------ size classes */
-static void row_bin(size_t n) {
+/* one request size: class functions, then a real mi_malloc(n) whose usable size and page block size are measured.
+   ph names the pass (history of the heap at that moment); the block is returned (kept live) if keep, else freed. */
+static void* row_bin_ph(size_t n, const char* ph, int keep) {
   size_t bin = _mi_bin(n), bin1 = _mi_bin(n + 1);
   size_t bsz = _mi_bin_size(bin);
   size_t good = mi_good_size(n);
@@ -48,12 +50,79 @@ static void row_bin(size_t n) {
   if (p != NULL) {
     us = (long)mi_usable_size(p);
     pbs = (long)mi_page_block_size(_mi_ptr_page(p));
-    mi_free(p);
+    if (!keep) { mi_free(p); p = NULL; }
   }
-  vf_logf("{\"k\":\"bin\",\"n\":%zu,\"bin\":%zu,\"bin1\":%zu,\"bsz\":%zu,\"good\":%zu,\"g2\":%zu,\"g2p\":%zu,\"us\":%ld,\"pbs\":%ld}",
-          n, bin, bin1, bsz, good, g2, g2p, us, pbs);
+  vf_logf("{\"k\":\"bin\",\"ph\":\"%s\",\"n\":%zu,\"bin\":%zu,\"bin1\":%zu,\"bsz\":%zu,\"good\":%zu,\"g2\":%zu,\"g2p\":%zu,\"us\":%ld,\"pbs\":%ld}",
+          ph, n, bin, bin1, bsz, good, g2, g2p, us, pbs);
   ROW_END();
+  return p;
 }
+static void row_bin(size_t n) { (void)row_bin_ph(n, "asc", 0); }
+
+/* ---- history passes: the same (n, good size, served block) rows, measured in heaps whose page queues have a history.
+   A pool of live blocks keeps pages of many classes present; replacing pool entries frees older blocks, so pages fill up,
+   move to the full queue, come back, retire: the heads of the size-class queues (and with them the direct small-page table
+   heap->pages_free_direct) keep changing between the measured requests. */
+#define POOLN 4096
+static void* pool[POOLN];
+static void pool_put(void* p) {
+  if (p == NULL) return;
+  size_t i = (size_t)vf_randn(POOLN);
+  if (pool[i] != NULL) mi_free(pool[i]);
+  pool[i] = p;
+}
+static void pool_free_some(int k) {
+  for (int j = 0; j < k; j++) { size_t i = (size_t)vf_randn(POOLN); if (pool[i] != NULL) { mi_free(pool[i]); pool[i] = NULL; } }
+}
+static void pool_clear(void) { for (size_t i = 0; i < POOLN; i++) if (pool[i] != NULL) { mi_free(pool[i]); pool[i] = NULL; } }
+static int keep_decision(size_t n) { return n <= 2048 ? (vf_randn(3) == 0) : (n <= 16384 ? (vf_randn(12) == 0) : (vf_randn(80) == 0)); }
+
+/* the request sizes of a history pass: thin = all n <= 1100 plus one word either side of every boundary of the compiled bin
+   function (with and without the padding shift) and of the OS-page rounding above the medium maximum; else every size */
+static size_t* hist_ns = NULL; static size_t hist_cnt = 0;
+static void hist_build(size_t nmax, int thin) {
+  hist_ns = (size_t*)malloc((nmax + 2) * sizeof(size_t)); hist_cnt = 0;
+  const size_t W = MI_INTPTR_SIZE;
+  for (size_t n = 0; n <= nmax; n++) {
+    int take = !thin || n <= 1100 || n + 2 >= nmax;
+    if (!take) {
+      for (size_t m = (n > W + 1 ? n - W - 1 : 0); m <= n + W && !take; m++) {
+        if (_mi_bin(m) != _mi_bin(m + 1) || _mi_bin(m + MI_PADDING_SIZE) != _mi_bin(m + MI_PADDING_SIZE + 1)) take = 1;
+        if (m > MI_MEDIUM_OBJ_SIZE_MAX - 2 * W && ((m + MI_PADDING_SIZE) % 4096 == 0)) take = 1;
+      }
+    }
+    if (take) hist_ns[hist_cnt++] = n;
+  }
+}
+static void hist_passes(int thorough) {
+  /* (b) second ascending pass; first one live block at the top of every class, allocated in ascending order */
+  static void* seedblk[128]; int nseed = 0;
+  for (size_t i = 0; i < hist_cnt; i++) {
+    size_t n = hist_ns[i];
+    if (_mi_bin(n) != _mi_bin(n + 1) && n <= MI_MEDIUM_OBJ_SIZE_MAX && nseed < 128) seedblk[nseed++] = mi_malloc(n - (n >= MI_PADDING_SIZE ? MI_PADDING_SIZE : 0));
+  }
+  for (size_t i = 0; i < hist_cnt; i++) { size_t n = hist_ns[i]; pool_put(row_bin_ph(n, "asc2", keep_decision(n))); }
+  /* (c) descending pass */
+  for (size_t i = hist_cnt; i-- > 0; ) { size_t n = hist_ns[i]; pool_put(row_bin_ph(n, "desc", keep_decision(n))); if (vf_randn(16) == 0) pool_free_some(3); }
+  /* (d) seeded random order with bursts of same-size allocations and interleaved frees */
+  long ops = thorough ? 150000 : 15000;
+  for (long k = 0; k < ops; k++) {
+    size_t n;
+    switch (vf_randn(10)) {
+      case 0: n = (size_t)vf_randn(hist_ns[hist_cnt - 1] + 1); break;
+      case 1: case 2: case 3: n = hist_ns[vf_randn(hist_cnt)]; break;
+      default: n = (size_t)vf_randn(1101); break;
+    }
+    if (vf_randn(8) == 0) { int burst = 1 + (int)vf_randn(n <= 1024 ? 60 : 6); for (int j = 0; j < burst; j++) pool_put(mi_malloc(n)); }
+    pool_put(row_bin_ph(n, "rnd", keep_decision(n)));
+    if (vf_randn(3) == 0) pool_free_some(1 + (int)vf_randn(24));
+    if (vf_randn(2000) == 0) mi_collect(false);
+  }
+  for (int i = 0; i < nseed; i++) mi_free(seedblk[i]);
+}
+/* (e) once more ascending, late: pages of every block size are live at several positions (address arithmetic section) */
+static void hist_late(void) { for (size_t i = 0; i < hist_cnt; i++) (void)row_bin_ph(hist_ns[i], "late", 0); }
+
 static void row_bigbin(uint64_t n) {
   size_t bin = _mi_bin(n), bin1 = _mi_bin(n + 1);
   uint64_t good = mi_good_size(n);
@@ -270,6 +339,10 @@ int main(int argc, char** argv) {
     }
     if (take) row_bin(n);
   }
+  /* 2b. the same rows in heaps with history: second ascending pass, descending pass, seeded random order */
+  hist_build(nmax, !thorough);
+  hist_passes(thorough);
+  pool_clear();
   /* 3. boundaries above: really allocated up to 48 MiB, by value classes up to PTRDIFF_MAX */
   {
     static const size_t bnd[] = { 512 * 1024ul, 2 * 1024 * 1024ul, 8 * 1024 * 1024ul, MI_LARGE_OBJ_SIZE_MAX, 32 * 1024 * 1024ul, 48 * 1024 * 1024ul,
@@ -334,6 +407,7 @@ int main(int argc, char** argv) {
       mi_free(p);
     } }
 
+  hist_late();
   /* 6. fast divide, 7. align/divide/overflow helpers */
   rows_fdiv(thorough);
   rows_align();
